@@ -367,6 +367,41 @@ fn c16_state<T: Flt>(acc: &mut Acc, cfg: &Cfg, h: &[Op]) -> Result<(), String> {
             }
         }
     }
+    // (1b) process() == process_into_buffer on input the core call rejects: same error, same
+    // (unchanged) state
+    for shape in 0..3u8 {
+        let mut a = mat::<T>(cfg, h)?;
+        let mut b = mat::<T>(cfg, h)?;
+        let mut input = input_for(&a, next);
+        let what = match shape {
+            0 => {
+                if next == 0 {
+                    continue;
+                }
+                input[n - 1].truncate(next - 1);
+                "last channel one frame short"
+            }
+            1 => {
+                input.push(vec![T::from64(0.5); next]);
+                "one input channel too many"
+            }
+            _ => {
+                input.pop();
+                "one input channel missing"
+            }
+        };
+        let mut out_a: Vec<Vec<T>> = vec![vec![sent; omax + 4]; n];
+        let ra = a.r.process_into_buffer(&input, &mut out_a, None);
+        let rb = b.r.process(&input, None);
+        acc.steps += 2;
+        acc.evals += 1;
+        if res_text(&ra) != res_text(&rb) {
+            acc.fail("C16", cfg, h, "process-result-differs", format!("{}: process_into_buffer {} vs process() {}", what, res_text(&ra), res_text(&rb)));
+        } else if fp_full(&a.state()) != fp_full(&b.state()) {
+            acc.fail("C16", cfg, h, "process-leaves-different-state", format!("{}", what));
+        }
+        acc.outcomes.push(format!("{}:process:rejected-input", cfg.kind.name()));
+    }
     // (2) partial Some(x) == zero padded / truncated chunk, (3) None == zero chunk, (4) process_partial
     let mut lens: Vec<Option<usize>> = vec![None];
     if next <= 64 {
@@ -620,7 +655,7 @@ impl Check for C16 {
         crate::frame::replay_by_item(self, replay)
     }
     fn rule(&self, _tier: Tier) -> String {
-        "for every history up to the depth (2 channels): twins materialised by replay; process() vs process_into_buffer under all 4 masks and no mask; process_partial_into_buffer(Some(x)) for every length 1..next-1 (next<=64), next, next+3 and None against process_into_buffer on the zero-padded/truncated chunk, with and without a mask, including the state left behind; process_partial vs process_partial_into_buffer; three flush calls vs three zero chunks; every VecResampler method through Box<dyn VecResampler> vs the direct call along all histories over {P, PP, W, accepted and rejected ratio changes}".into()
+        "for every history up to the depth (2 channels): twins materialised by replay; process() vs process_into_buffer under all 4 masks and no mask, and on three inputs the core call rejects (short channel, one channel too many, one missing); process_partial_into_buffer(Some(x)) for every length 1..next-1 (next<=64), next, next+3 and None against process_into_buffer on the zero-padded/truncated chunk, with and without a mask, including the state left behind; process_partial vs process_partial_into_buffer; three flush calls vs three zero chunks; every VecResampler method through Box<dyn VecResampler> vs the direct call along all histories over {P, PP, W, accepted and rejected ratio changes}".into()
     }
     fn assumptions(&self) -> Vec<String> {
         vec!["bit-identical comparison of all output cells (sentinel-filled buffers), returned counts and hook snapshots".into()]
